@@ -376,8 +376,21 @@ def pdr_verdicts(ctx):
                 for arm in n["arms"]:
                     alts_ = pat_alts(arm["pat"])
                     qs = [(alt["subs"][0] if alt.get("k") == "ptuple" and alt["subs"] else alt) for alt in alts_]
+                    if not any(q.get("k") == "pvariant" and q.get("path") == RESP + "Unknown" for q in qs):
+                        continue
                     if not all(q.get("k") == "pvariant" and q.get("path") == RESP + "Unknown" for q in qs):
-                        continue              # an arm that also takes other answers is judged by R15.3 (lumping), not here
+                        # an arm that takes Unknown together with other answers: harmless only when the answer itself is handed on to the caller
+                        # (who discriminates it), e.g. `query` computing the cube to return next to the response
+                        sc = peel(n["scrut"])
+                        sc = peel(sc["es"][0]) if sc.get("k") == "tuple" and sc["es"] else sc
+                        handed_on = False
+                        if sc.get("k") == "local":
+                            for cs_, leaf in psanorm.function_results(g, gx):
+                                if any(x.get("k") == "local" and canon(x["id"]) == canon(sc["id"]) for x in walk(leaf)):
+                                    handed_on = True
+                        if handed_on:
+                            continue
+                        alts_ = [a_ for a_, q in zip(alts_, qs) if q.get("k") == "pvariant" and q.get("path") == RESP + "Unknown"]
                     for alt in alts_[:1]:
                         q = alt["subs"][0] if alt.get("k") == "ptuple" and alt["subs"] else alt
                         if q.get("k") == "pvariant" and q.get("path") == RESP + "Unknown":
